@@ -195,6 +195,14 @@ func skolemise(goal *sexp, counter *int) (*sexp, [][2]string) {
 			if len(g.list) >= 2 {
 				return walk(g.list[1])
 			}
+		case "and", "or":
+			// a universal in a conjunct/disjunct of the goal is still in positive position and under no
+			// other binder (the enclosing universals are constants by now): a fresh constant refutes it
+			n := &sexp{list: []*sexp{g.list[0]}}
+			for _, c := range g.list[1:] {
+				n.list = append(n.list, walk(c))
+			}
+			return n
 		}
 		return g
 	}
@@ -231,7 +239,7 @@ func instancesSorted(f *sexp, bySort map[string][]*sexp, limit *int) []*sexp {
 		}
 		combos := [][]*sexp{{}}
 		for _, vb := range vars {
-			terms := bySort[vb.list[1].String()]
+			terms := affine(vb.list[0].atom, bySort[vb.list[1].String()])
 			var next [][]*sexp
 			for _, c := range combos {
 				for _, t := range terms {
@@ -620,6 +628,22 @@ func augment(lines []string, guard, goal string, intFuncs map[string]bool) (extr
 	for _, k := range sortedSexpKeys(apps) {
 		terms = append(terms, apps[k])
 	}
+	// witness indices introduced by library models (l.ForName(n) is l[fornameidx]) are
+	// what uniqueness / first-match hypotheses have to be instantiated at
+	if len(terms) > 0 {
+		var wit []string
+		for _, l := range lines {
+			if strings.HasPrefix(l, "(declare-const fornameidx!") {
+				wit = append(wit, strings.Fields(l)[1])
+			}
+		}
+		if len(wit) > 2 {
+			wit = wit[len(wit)-2:]
+		}
+		for _, w := range wit {
+			terms = append(terms, &sexp{atom: w})
+		}
+	}
 	if len(terms) == 0 && len(other) == 0 {
 		return extraDecls, nil, newGoal
 	}
@@ -631,6 +655,10 @@ func augment(lines []string, guard, goal string, intFuncs map[string]bool) (extr
 		if !strings.HasPrefix(l, "(assert ") || !strings.Contains(l, "(forall ") {
 			continue
 		}
+		// heap closedness axioms carry their own patterns; instances at index terms are noise
+		if strings.HasPrefix(l, "(assert (forall ((c!0 Int)") {
+			continue
+		}
 		if f, ok := parseSexp(l); ok {
 			quantified = append(quantified, f)
 		}
@@ -638,8 +666,8 @@ func augment(lines []string, guard, goal string, intFuncs map[string]bool) (extr
 	seen := map[string]bool{}
 	limit := 600
 	for round := 0; round < 2; round++ {
-		if len(terms) > 8 {
-			terms = terms[:8]
+		if len(terms) > 10 {
+			terms = terms[:10]
 		}
 		newApps := map[string]*sexp{}
 		bySort := map[string][]*sexp{"Int": terms}
@@ -648,6 +676,20 @@ func augment(lines []string, guard, goal string, intFuncs map[string]bool) (extr
 		}
 		for _, f := range quantified {
 			for _, inst := range instancesSorted(f, bySort, &limit) {
+				// an instance may expose an existential (forall j: ... exists m: ...): eliminate it and
+				// offer the witness constant to the next round
+				if strings.Contains(inst.String(), "(exists ") {
+					var hc [][2]string
+					if ni, ch := skolemiseHyp(inst, true, &counter, &hc); ch {
+						inst = ni
+						for _, c := range hc {
+							extraDecls = append(extraDecls, fmt.Sprintf("(declare-const %s %s)", c[0], c[1]))
+							if c[1] == "Int" {
+								newApps[c[0]] = &sexp{atom: c[0]}
+							}
+						}
+					}
+				}
 				s := inst.String()
 				if !seen[s] {
 					seen[s] = true
@@ -661,12 +703,19 @@ func augment(lines []string, guard, goal string, intFuncs map[string]bool) (extr
 			have[t.String()] = true
 		}
 		added := false
+		var front []*sexp
 		for _, k := range sortedSexpKeys(newApps) {
 			if !have[k] {
-				terms = append(terms, newApps[k])
+				// witnesses of eliminated existentials go first: the cut below must not drop them
+				if strings.HasPrefix(k, "hk!") {
+					front = append(front, newApps[k])
+				} else {
+					terms = append(terms, newApps[k])
+				}
 				added = true
 			}
 		}
+		terms = append(front, terms...)
 		if !added {
 			break
 		}
@@ -681,4 +730,58 @@ func sortedSexpKeys(m map[string]*sexp) []string {
 	}
 	sort.Strings(ks)
 	return ks
+}
+
+// specVarBase: the name the contract gave a bound variable ("q!k!12") or the variable a
+// skolem constant came from ("sk!q_k_12!3", "hk!q_k_12!3"); "" for anything else.
+func specVarBase(name string) string {
+	switch {
+	case strings.HasPrefix(name, "q!"):
+		r := name[2:]
+		if i := strings.LastIndex(r, "!"); i > 0 {
+			return r[:i]
+		}
+		return ""
+	case strings.HasPrefix(name, "sk!q_"), strings.HasPrefix(name, "hk!q_"):
+		r := name[5:]
+		if i := strings.Index(r, "!"); i > 0 {
+			r = r[:i]
+		}
+		if i := strings.LastIndex(r, "_"); i > 0 {
+			return r[:i]
+		}
+	}
+	return ""
+}
+
+// affine narrows the candidates of a bound variable: when some skolem constants come from a
+// variable of the same name in the contracts (the goal's k for a hypothesis' k), the other
+// skolem constants are not tried for it. Every instance is a consequence either way; this
+// only decides which ones are spelled out for the solver.
+func affine(bound string, terms []*sexp) []*sexp {
+	b := specVarBase(bound)
+	if b == "" {
+		return terms
+	}
+	match := false
+	for _, t := range terms {
+		if t.list == nil && specVarBase(t.atom) == b {
+			match = true
+			break
+		}
+	}
+	if !match {
+		return terms
+	}
+	var out []*sexp
+	for _, t := range terms {
+		// only the goal's own constants are matched by name; witnesses of hypotheses go everywhere
+		if t.list == nil && strings.HasPrefix(t.atom, "sk!") {
+			if tb := specVarBase(t.atom); tb != "" && tb != b {
+				continue
+			}
+		}
+		out = append(out, t)
+	}
+	return out
 }
